@@ -289,7 +289,9 @@ class Env:
             return
         self.all_executors.append({"id": id(e), "ex": weakref.ref(e), "cq": e._call_queue, "rq": e._result_queue,
                                    "mgmt": e._processes_management_lock, "shutdown_lock": e._shutdown_lock,
-                                   "procs": e._processes, "flags": e._flags, "hwm": e._max_workers})
+                                   "procs": e._processes, "flags": e._flags, "hwm": e._max_workers,
+                                   "pending": e._pending_work_items, "running": e._running_work_items,
+                                   "work_ids": e._work_ids})
 
     def executor(self, max_workers=2, timeout=None, **kw):
         e = pe.ProcessPoolExecutor(max_workers, context=self.ctx, timeout=timeout, **kw)
